@@ -514,13 +514,10 @@ func (c *CEnv) evalCall(e *CExpr) Val {
 		if v.Ty.K == TPtr {
 			return Val{T: v.T, Ty: tyInt}
 		}
-		if v.Seq != nil && v.Seq.Slice != nil {
-			return Val{T: slReg(v.Seq.Slice), Ty: tyInt}
-		}
-		return Val{T: slReg(v.T), Ty: tyInt}
+		return Val{T: slReg(c.sliceHeader(e, v).T), Ty: tyInt}
 	case "offset":
 		need(1)
-		v := c.eval(e.Args[0])
+		v := c.sliceHeader(e, c.eval(e.Args[0]))
 		return Val{T: slOff(v.T), Ty: tyInt}
 	case "fresh":
 		need(1)
@@ -529,7 +526,7 @@ func (c *CEnv) evalCall(e *CExpr) Val {
 		if v.Ty.K == TPtr {
 			r = v.T
 		} else {
-			r = slReg(v.T)
+			r = slReg(c.sliceHeader(e, v).T)
 		}
 		if c.oldAlloc == nil {
 			c.errf(e, "fresh() not available here")
@@ -539,7 +536,7 @@ func (c *CEnv) evalCall(e *CExpr) Val {
 		need(1)
 		v := c.eval(e.Args[0])
 		if v.Ty.K == TSlice {
-			return Val{T: Eq(slReg(v.T), IntLit(0)), Ty: tyBool}
+			return Val{T: Eq(slReg(c.sliceHeader(e, v).T), IntLit(0)), Ty: tyBool}
 		}
 		return Val{T: Eq(v.T, IntLit(0)), Ty: tyBool}
 	case "isfinite", "isnan", "isinf":
@@ -858,7 +855,10 @@ func (c *CEnv) callSpec(e *CExpr, sf *SpecFunc, args []Val) Val {
 	}
 	if !sf.Rec && !sf.Opaque {
 		// non-recursive spec functions are expanded in place
-		return Val{T: x.specBodyInstanceIn(sf, flat, c), Ty: rty}
+		x.specOrigArgs = args
+		t := x.specBodyInstanceIn(sf, flat, c)
+		x.specOrigArgs = nil
+		return Val{T: t, Ty: rty}
 	}
 	x.usedSpecs[sf.Name] = true
 	name := "spec_" + sf.Name
@@ -880,11 +880,19 @@ func (x *Exec) specBodyInstanceIn(sf *SpecFunc, flat []*Term, ctx *CEnv) *Term {
 		pe.st, pe.old, pe.inOld, pe.oldAlloc = ctx.st, ctx.old, ctx.inOld, ctx.oldAlloc
 	}
 	_, tys := x.specParamSorts(sf, pe)
+	orig := x.specOrigArgs
+	x.specOrigArgs = nil // applies to this expansion only, not to nested ones
 	i := 0
 	for k, p := range sf.Params {
 		ty := tys[k]
 		if ty.K == TSlice {
-			pe.bound[p.Name] = Val{T: flat[i], Ty: ty, Seq: &SeqView{Off: flat[i+1], Len: flat[i+2], Elem: ty.Elem}}
+			sv := &SeqView{Off: flat[i+1], Len: flat[i+2], Elem: ty.Elem}
+			if k < len(orig) && orig[k].T.Sort == SSlice {
+				// expanded in place: region(), fresh(), isnil() of the
+				// parameter refer to the slice passed
+				sv.Slice = orig[k].T
+			}
+			pe.bound[p.Name] = Val{T: flat[i], Ty: ty, Seq: sv}
 			i += 3
 		} else {
 			pe.bound[p.Name] = Val{T: flat[i], Ty: ty}
@@ -903,4 +911,17 @@ func containsStr(xs []string, s string) bool {
 		}
 	}
 	return false
+}
+
+// sliceHeader: the slice header of v for region()/offset()/fresh()/isnil().
+// A slice parameter of a spec function is only a sequence (array, offset,
+// length) unless the spec is being expanded in place on a Go slice.
+func (c *CEnv) sliceHeader(e *CExpr, v Val) Val {
+	if v.Seq != nil && v.Seq.Slice != nil {
+		return Val{T: v.Seq.Slice, Ty: v.Ty}
+	}
+	if v.T.Sort != SSlice {
+		c.errf(e, "region/offset/fresh/isnil of a sequence parameter that is not a Go slice here (the spec is recursive, opaque or applied to a sequence)")
+	}
+	return v
 }
